@@ -64,6 +64,7 @@ def run_c10(ctx, fa):
         tries += 1
         g = gen.Gen(rnd, logical=rnd.random() < 0.25, max_depth=rnd.choice([1, 2, 2, 3]), big=rnd.random() < 0.15)
         g.mapping_views = True
+        g.typed_arrays = True
         ir = g.schema()
         raw = g.render(ir)
         try:
